@@ -180,7 +180,7 @@ func faultSequences(c *run.Ctx) (res run.Result) {
 			judgeWrite(w, p, err)
 		case "SplatPly.Write":
 			rest := []int{0, 9}[r.Intn(2)]
-			pc := genPlyCloud(r, n, rest, r.Intn(2) == 0, "f64")
+			pc := genPlyCloud(r, n, contig(rest), r.Intn(2) == 0, "f64")
 			if o.fault == "" {
 				checkSplatPly(c, &res, pc, faultCtx)
 				break
@@ -203,7 +203,7 @@ func faultSequences(c *run.Ctx) (res run.Result) {
 			judgeRead(&res, o, input, fr, p, err, faultSeen)
 		case "spz.Read":
 			version, deg := uint32(1+r.Intn(2)), uint8(r.Intn(4))
-			s := splatref.RandomSPZ(r, version, n, deg, uint8(r.Intn(24)), 0, true)
+			s := splatref.RandomSPZ(r, version, n, deg, drawFractionalBits(r), 0, true)
 			level := gzLevels[r.Intn(len(gzLevels))]
 			data := s.Gzip(level)
 			if o.fault == "" {
